@@ -18,3 +18,7 @@ check("C18", "exploration",
       "Every run over consecutive slices of the complete Rxn(A01,2) universe and the hand-built/special families under thresholds {0,0.5,1} x batch sizes {None,1,2,3}; the stats dict is compared with counts taken from the returned rows.",
       "Inputs are valid reactions; CLI .stats file covered by C05's CLI runs.",
       "bounded-exhaustive enumeration of runs, stats-vs-rows oracle", "DESIGN.md 4/C18")
+check("C02", "exploration",
+      "Every reaction with sides of 1..2 molecules over an alphabet containing the molecules whose text carries the pipeline's string markers (OO, [H][H], COO, [Na]Cl ...), every marker molecule in every position, hand-built/special families (thorough: full alphabet, complete mapped corpus) through the real pipeline; per side the multiset of input molecules must be contained in the output's, input_reaction must be the input's molecules, no atom map may survive.",
+      "Molecule identity = RDKit canonical SMILES per fragment; closed-shell domain without free H/O placeholders.",
+      "bounded-exhaustive input enumeration through the real pipeline, multiset-containment oracle", "DESIGN.md 4/C02")
